@@ -254,7 +254,11 @@ func (arr sortedSplitList) Less(i, j int) bool {
 	} else if f2 := arr[j].File(); f2 != nil {
 		return false
 	}
-	return arr[i].Line() < arr[j].Line()
+	if l1, l2 := arr[i].Line(), arr[j].Line(); l1 != l2 {
+		return l1 < l2
+	}
+	// Several bindings of one call can be on the same line.
+	return arr[i].Node.Loc.Col < arr[j].Node.Loc.Col
 }
 
 func unifyMapSources(call *CallStm, ins map[string]*ResolvedBinding, disable []Exp) (*SplitExp, error) {
